@@ -68,11 +68,52 @@ def generate(n, seed, depth=60):
 
 
 class FakeTime:
+    """Stands in for the `time` module (and for `time.time`) in the observers' modules."""
+
     def __init__(self):
         self.now = 1000.0
 
     def time(self):
         return self.now
+
+    def __getattr__(self, name):
+        import time as _t
+
+        return getattr(_t, name)
+
+
+def observer_classes():
+    """The three bundled observer classes, through the public package if it exports them."""
+    import uberjob.progress as P
+
+    out = {}
+    for key, name, mod in (("console", "ConsoleProgressObserver", "_console_progress_observer"), ("html", "HtmlProgressObserver", "_html_progress_observer"),
+                           ("ipython", "IPythonProgressObserver", "_ipython_progress_observer")):
+        cls = getattr(P, name, None)
+        if cls is None:
+            import importlib
+
+            cls = getattr(importlib.import_module(f"uberjob.progress.{mod}"), name)
+        out[key] = cls
+    return out
+
+
+def find_state(obs):
+    """The observer's counters object (whatever private attribute holds it): the thing with `section_scope_mapping`."""
+    for v in vars(obs).values():
+        if hasattr(v, "section_scope_mapping"):
+            return v
+    return None
+
+
+def sync_available():
+    """Can a wake-up of the update thread be performed synchronously (see `wake`)? It needs two private names of
+    SimpleProgressObserver; when they are gone (renamed), only the replays with the real thread are done."""
+    try:
+        obs = observer_classes()["console"](initial_update_delay=10**9, min_update_interval=10**9, max_update_interval=10**9)
+        return isinstance(getattr(obs, "_done_event", None), threading.Event) and callable(getattr(obs, "_run_update_thread", None))
+    except Exception:
+        return False
 
 
 def progress_string(c, f, r, t):
@@ -82,6 +123,99 @@ def progress_string(c, f, r, t):
     if f:
         s += f", {f} failed"
     return s
+
+
+def rows_shown(obsname, outputs, obs, sec, final):
+    """Multiset of (scope label, progress string) rows of section `sec` in the last rendering that shows it."""
+    import collections
+    import html as _h
+
+    shown = None
+    if obsname == "console":
+        # (one captured chunk may hold several renderings: every section header starts a new block; the last
+        # non-empty block of the section counts)
+        for out in outputs:
+            rows, insec = [], None
+            for line in out.splitlines():
+                if line in ("stale:", "run:"):
+                    if insec == sec and rows:
+                        shown = collections.Counter(rows)
+                    insec = line[:-1]
+                    rows = []
+                elif insec == sec and line.startswith("  ") and " | " in line:
+                    parts = line.split(" | ", 2)
+                    if len(parts) == 3:
+                        rows.append((parts[2], parts[0].strip()))
+            if insec == sec and rows:
+                shown = collections.Counter(rows)
+    elif obsname == "html":
+        if outputs:
+            out = outputs[-1]
+            title = "Determining stale value stores" if sec == "stale" else "Running graph"
+            i = out.find(title)
+            j = out.find("</tbody>", i)
+            seg = out[i:j] if i >= 0 else ""
+            rows = []
+            for m in re.finditer(r'<td class="text-end">([^<]*(?:<span[^>]*>[^<]*</span>)?)</td>\s*<td class="text-end">[^<]*</td>\s*<td>([^<]*)</td>', seg):
+                rows.append((_h.unescape(m.group(2)).replace("\u200b", ""), re.sub(r"<span[^>]*>([^<]*)</span>", r"\1", _h.unescape(m.group(1))).strip()))
+            shown = collections.Counter(rows)
+    else:
+        # every label widget the observer holds (in whatever private dict, under whatever key): "progress; elapsed; scope"
+        rows = []
+        for v in vars(obs).values():
+            if isinstance(v, dict):
+                for w in v.values():
+                    val = getattr(w, "value", None)
+                    if type(w).__name__ == "Label" and isinstance(val, str) and val.count(";") >= 2:
+                        prog, _el, label = val.split(";", 2)
+                        rows.append((label.strip().replace("\u200b", ""), prog.strip()))
+        shown = collections.Counter(rows)
+    return shown
+
+
+def final_counts_failure(obsname, outputs, obs, final):
+    import collections
+
+    secs = sorted({k[0] for k in final})
+    if obsname == "ipython":
+        secs = [None]  # the widgets are not attributed to sections here: all rows together
+    for sec in secs:
+        want = collections.Counter((", ".join(str(x) for x in sc), progress_string(c, f, r, t)) for (s2, sc), (c, f, r, t) in final.items() if sec is None or s2 == sec)
+        shown = rows_shown(obsname, outputs, obs, sec, final)
+        if shown != want:
+            return {"obs": obsname, "what": "final_counts_not_shown", "detail": f"section {sec}: shown {sorted((shown or {}).items())!r:.300}, final {sorted(want.items())!r:.300}"}
+    return None
+
+
+CAL_SCOPES = [("cal", 7), ("cal", 8), ("zz",)]
+CAL_SEQ = (
+    [{"e": "enter", "sec": "", "sc": 0, "amt": 0}]
+    + [{"e": "total", "sec": "stale", "sc": 1, "amt": 2}, {"e": "total", "sec": "stale", "sc": 2, "amt": 1}]
+    + [{"e": k, "sec": "stale", "sc": 1, "amt": 0} for k in ("running", "completed", "running", "completed")]
+    + [{"e": k, "sec": "stale", "sc": 2, "amt": 0} for k in ("running", "completed")]
+    + [{"e": "total", "sec": "run", "sc": 1, "amt": 3}, {"e": "total", "sec": "run", "sc": 3, "amt": 1}]
+    + [{"e": k, "sec": "run", "sc": 1, "amt": 0} for k in ("running", "completed", "running", "failed")]
+    + [{"e": k, "sec": "run", "sc": 3, "amt": 0} for k in ("running", "tick", "completed")]
+    + [{"e": "exit", "sec": "", "sc": 0, "amt": 0}]
+)
+
+
+def calibrate(sync):
+    """Does this module's row parser understand what the implementation at hand prints? A fixed, trivial sequence
+    (no rendering before the end) is replayed; if the parsed rows are not the expected ones for an observer, the
+    display format is not the one the parser was written for, and the final-counts oracle is not applied to that
+    observer (its other oracles - nothing raises, nothing hangs, elapsed time adds up - do not read the output)."""
+    ok = {}
+    for k in ("console", "html", "ipython"):
+        try:
+            if sync:
+                fails = [f for f in replay_one((CAL_SEQ, "cal", CAL_SCOPES)) if f["obs"] == k]
+            else:
+                fails = replay_threaded((CAL_SEQ, CAL_SCOPES, 1, {"kind": "nonpreemptive"}, k))["fails"]
+            ok[k] = not fails
+        except Exception:
+            ok[k] = False
+    return ok
 
 
 def wake(obs):
@@ -96,17 +230,18 @@ def wake(obs):
 
 def replay_one(arg):
     """Replay one sequence for one scope family into the three observers. Returns a list of failures."""
-    seq, famname, scopes = arg
-    from uberjob.progress import _simple_progress_observer as SPO
-    from uberjob.progress._console_progress_observer import ConsoleProgressObserver
-    from uberjob.progress._html_progress_observer import HtmlProgressObserver
-    from uberjob.progress._ipython_progress_observer import IPythonProgressObserver
+    seq, famname, scopes = arg[:3]
+    fmt_ok = arg[3] if len(arg) > 3 else {"console": True, "html": True, "ipython": True}
+    import time as _realtime
 
+    from .. import interpose
+
+    classes = observer_classes()
+    ConsoleProgressObserver, HtmlProgressObserver, IPythonProgressObserver = classes["console"], classes["html"], classes["ipython"]
     fails = []
     for obsname in ("console", "html", "ipython"):
         ft = FakeTime()
-        real_time = SPO.time
-        SPO.time = ft
+        swapped = interpose.swap_globals([(_realtime, ft), (_realtime.time, ft.time)], prefixes=("uberjob.progress",))
         outputs = []
         thread_exc = []
         old_hook = threading.excepthook
@@ -172,108 +307,73 @@ def replay_one(arg):
                 continue
             # the last rendering of each section shows the final counts of every scope (scopes that print alike are
             # compared as a multiset of rows)
-            if any(e["e"] == "enter" for e in seq) and final:
-                import collections
-                import html as _h
-
-                for sec in sorted({k[0] for k in final}):
-                    want = collections.Counter((", ".join(str(x) for x in sc), progress_string(c, f, r, t)) for (s2, sc), (c, f, r, t) in final.items() if s2 == sec)
-                    shown = None
-                    if obsname == "console":
-                        for out in outputs:
-                            rows, insec = [], None
-                            for line in out.splitlines():
-                                if line in ("stale:", "run:"):
-                                    insec = line[:-1]
-                                elif insec == sec and line.startswith("  ") and " | " in line:
-                                    parts = line.split(" | ", 2)
-                                    if len(parts) == 3:
-                                        rows.append((parts[2], parts[0].strip()))
-                            if rows:
-                                shown = collections.Counter(rows)
-                    elif obsname == "html":
-                        if outputs:
-                            out = outputs[-1]
-                            title = "Determining stale value stores" if sec == "stale" else "Running graph"
-                            i = out.find(title)
-                            j = out.find("</tbody>", i)
-                            seg = out[i:j] if i >= 0 else ""
-                            rows = []
-                            for m in re.finditer(r'<td class="text-end">([^<]*(?:<span[^>]*>[^<]*</span>)?)</td>\s*<td class="text-end">[^<]*</td>\s*<td>([^<]*)</td>', seg):
-                                rows.append((_h.unescape(m.group(2)).replace("\u200b", ""), re.sub(r"<span[^>]*>([^<]*)</span>", r"\1", _h.unescape(m.group(1))).strip()))
-                            shown = collections.Counter(rows)
-                    else:
-                        cache = obs._widget_cache or {}
-                        rows = []
-                        for (s2, sc) in final:
-                            if s2 == sec:
-                                w = cache.get(("section", sec, "scope", sc, "label"))
-                                rows.append((", ".join(str(x) for x in sc), w.value.split(";")[0].strip() if w is not None else None))
-                        shown = collections.Counter(rows)
-                    if shown != want:
-                        fails.append({"obs": obsname, "what": "final_counts_not_shown", "detail": f"section {sec}: shown {sorted((shown or {}).items())!r:.300}, final {sorted(want.items())!r:.300}"})
-                        break
+            if any(e["e"] == "enter" for e in seq) and final and fmt_ok.get(obsname):
+                f_ = final_counts_failure(obsname, outputs, obs, final)
+                if f_:
+                    fails.append(f_)
             # elapsed attributed to scopes adds up to the time during which something was running
-            total = sum(s.weighted_elapsed for m in obs._state.section_scope_mapping.values() for s in m.values())
+            state = find_state(obs)
+            total = sum(s.weighted_elapsed for m in state.section_scope_mapping.values() for s in m.values()) if state is not None else busy
             if abs(total - busy) > 1e-6 * max(1.0, busy):
                 fails.append({"obs": obsname, "what": "elapsed_does_not_add_up", "detail": f"attributed {total}, busy {busy}"})
         finally:
-            SPO.time = real_time
+            interpose.restore(swapped)
             threading.excepthook = old_hook
     return fails
 
 
-def html_final_shown(out, sec, sc):
-    """Progress string shown for (section, scope) in one HTML rendering, or None."""
-    import html as _h
-
-    scs = ", ".join(str(x) for x in sc)
-    scs_h = _h.escape(scs.replace(".", "\u200b."))
-    title = "Determining stale value stores" if sec == "stale" else "Running graph"
-    i = out.find(title)
-    j = out.find("</table>", i)
-    seg = out[i:j] if i >= 0 else ""
-    m = None
-    for m in re.finditer(r'<td class="text-end">([^<]*(?:<span[^>]*>[^<]*</span>)?)</td>\s*<td class="text-end">[^<]*</td>\s*<td>' + re.escape(scs_h) + r"</td>", seg):
-        pass
-    if not m:
-        return None
-    return re.sub(r"<span[^>]*>([^<]*)</span>", r"\1", _h.unescape(m.group(1))).strip()
-
-
 def replay_threaded(arg):
-    """The same sequences with the *real update thread* running under the deterministic scheduler:
-    notifications come from the calling thread, the observer's thread wakes on virtual timeouts and
-    renders; preemption at every line of _simple_progress_observer.py. After __exit__ the last
-    emitted rendering must show the final counts."""
-    seq, scopes, seed, stratspec = arg
+    """The same sequences with the *real update thread* running under the deterministic scheduler, through
+    the observers' public interface only (constructor, __enter__, notifications, __exit__): notifications
+    come from the calling thread, the observer's thread wakes on virtual timeouts and renders; preemption
+    at every line of the progress modules. After __exit__ the last emitted rendering must show the final counts."""
+    seq, scopes, seed, stratspec = arg[:4]
+    obsname = arg[4] if len(arg) > 4 else "html"
+    fmt_ok = arg[5] if len(arg) > 5 else True
     from .. import detsched, engine_exec as E
 
     rng = random.Random(seed)
     strat = E.make_strategy(stratspec, rng)
-    sched = detsched.Scheduler(strat, preempt_files=("uberjob/progress/_simple_progress_observer.py", "uberjob/progress/_html_progress_observer.py"), opcode=False, step_budget=400000,
+    sched = detsched.Scheduler(strat, preempt_files=("uberjob/progress/",), opcode=False, step_budget=400000,
                                 timers="any" if seed % 2 else "idle")  # "any": a sleeping thread may wake while others are still busy (time passes during rendering)
     outputs = []
     final = {}
     thread_exc = []
+    holder = {}
+    stdout = io.StringIO()
+    label = f"{obsname}(threaded)"
 
     def body():
-        from uberjob.progress._html_progress_observer import HtmlProgressObserver
-        from uberjob.progress import _simple_progress_observer as SPO
+        vsleep = sched.ns.time_module.sleep
+        cls = observer_classes()[obsname]
+        # (update intervals shorter than the shortest tick: the display is refreshed during every pause of the caller)
+        d = 0.1 if (stratspec.get("kind") == "preempt" or seed % 3 == 0) else 0.5
+        kw = dict(initial_update_delay=d, min_update_interval=d, max_update_interval=3.0)
+        if obsname == "html":
+            def out_fn(b):
+                # emitting takes (virtual) time: notifications may arrive meanwhile
+                vsleep(rng.choice([0.0, 0.3, 0.7]))
+                outputs.append(b.decode())
+                sched.point("call", None)
 
-        def out_fn(b):
-            # emitting takes (virtual) time: notifications may arrive meanwhile
-            SPO.time.sleep(rng.choice([0.0, 0.3, 0.7]))
-            outputs.append(b.decode())
-            sched.point("call", None)
+            obs = cls(out_fn, **kw)
+        else:
+            obs = cls(**kw)
+        holder["obs"] = obs
 
-        obs = HtmlProgressObserver(out_fn, initial_update_delay=0.5, min_update_interval=0.5, max_update_interval=3.0)
+        def flush():
+            if obsname == "console" and stdout.getvalue():
+                outputs.append(stdout.getvalue())
+                stdout.seek(0)
+                stdout.truncate()
+
         for e in seq:
             k = e["e"]
             sc = scopes[e["sc"] - 1] if e["sc"] else None
             key = (e["sec"], sc)
             if k == "enter":
                 obs.__enter__()
+                vsleep(0.001)  # the update thread gets going (its first wait starts now, not at the caller's first pause)
             elif k == "exit":
                 obs.__exit__(None, None, None)
             elif k == "total":
@@ -291,41 +391,70 @@ def replay_threaded(arg):
                 final[key][2] -= 1
                 final[key][1] += 1
             elif k == "tick":
-                SPO.time.sleep(rng.choice([0.2, 0.6, 1.0]))
+                vsleep(rng.choice([0.2, 0.6, 1.0]))
+                flush()
             else:
                 sched.point("call", None)
+        flush()
         return True
 
     old_hook = threading.excepthook
     threading.excepthook = lambda a: thread_exc.append(repr(a.exc_value)[:300])
     try:
-        out = sched.run(body)
+        with contextlib.redirect_stdout(stdout):
+            out = sched.run(body)
     finally:
         threading.excepthook = old_hook
     fails = []
-    res = {"fails": fails, "preemptions": sched.preemptions, "renderings": len(outputs)}
+    res = {"fails": fails, "preemptions": sched.preemptions, "renderings": len(outputs), "steps": out.get("steps", 0),
+           "sched_log": list(sched.sched_log) if stratspec.get("kind") == "preempt" and not stratspec.get("preempts") else None}
     if out["dead"]:
         res["_poisoned"] = True
     if out["outcome"] == "hang":
-        fails.append({"obs": "html(threaded)", "what": "hang", "detail": "update thread and caller deadlocked"})
+        fails.append({"obs": label, "what": "hang", "detail": "update thread and caller deadlocked"})
         return res
     if out["outcome"] == "raised":
-        fails.append({"obs": "html(threaded)", "what": "raised", "detail": repr(out["exc"])[:300]})
+        fails.append({"obs": label, "what": "raised", "detail": repr(out["exc"])[:300]})
         return res
     if thread_exc:
-        fails.append({"obs": "html(threaded)", "what": "update_thread_raised", "detail": thread_exc[0]})
+        fails.append({"obs": label, "what": "update_thread_raised", "detail": thread_exc[0]})
         return res
-    if final:
-        if not outputs:
-            fails.append({"obs": "html(threaded)", "what": "final_counts_not_shown", "detail": "nothing was ever rendered"})
+    if final and fmt_ok and any(e["e"] == "exit" for e in seq):
+        if not outputs and obsname != "ipython":
+            fails.append({"obs": label, "what": "final_counts_not_shown", "detail": "nothing was ever rendered"})
         else:
-            for (sec, sc), (c, f, r, t) in final.items():
-                want = progress_string(c, f, r, t)
-                shown = html_final_shown(outputs[-1], sec, sc)
-                if shown != want:
-                    fails.append({"obs": "html(threaded)", "what": "final_counts_not_shown", "detail": f"{sec} {sc}: last rendering shows {shown!r}, final {want!r}"})
-                    break
+            f_ = final_counts_failure(obsname, outputs, holder.get("obs"), final)
+            if f_:
+                f_["obs"] = label
+                fails.append(f_)
     return res
+
+
+def replay_threaded_enum(arg):
+    """Bounded-preemption enumeration (b = 1) for one sequence: a baseline in which threads only switch when they block,
+    then one execution for every step at which the update thread was running, with a switch to the calling thread
+    forced at that step (time may pass while the update thread is busy rendering: timers = "any"). This is the
+    systematic search for 'the caller changes the counters while the display is being produced'."""
+    seq, scopes, seed, kind, fmt_ok, limit = arg
+    seed = seed | 1  # odd seeds run with timers="any"
+    base = replay_threaded((seq, scopes, seed, {"kind": "preempt", "preempts": []}, kind, fmt_ok))
+    outs = [({"kind": "preempt", "preempts": []}, base)]
+    if base.get("_poisoned") or not base.get("sched_log"):
+        return {"runs": outs, "_poisoned": base.get("_poisoned", False)}
+    steps = []
+    log = base["sched_log"] + [(base["steps"], None, None)]
+    for (s0, _f, to), (s1, _f2, _t2) in zip(log, log[1:]):
+        if to is not None and to != 0:
+            steps.extend(range(s0 + 1, s1 + 1))
+    if limit and len(steps) > limit:
+        steps = sorted(random.Random(seed).sample(steps, limit))
+    for st in steps:
+        spec = {"kind": "preempt", "preempts": [[st, 0]]}
+        o = replay_threaded((seq, scopes, seed, spec, kind, fmt_ok))
+        outs.append((spec, o))
+        if o.get("_poisoned"):
+            return {"runs": outs, "_poisoned": True}
+    return {"runs": outs}
 
 
 def run(tier, seed):
@@ -343,16 +472,24 @@ def run(tier, seed):
     rng = random.Random(f"c20-{seed}")
     distinct = {json.dumps(s) for s in seqs}
     seqs = [json.loads(s) for s in sorted(distinct)]
+    sync = sync_available()
+    fmt = calibrate(sync)
+    res.coverage["synchronous_replay"] = sync
+    res.coverage["final_counts_parser_valid"] = fmt
+    if not sync or not all(fmt.values()):
+        res.coverage["degraded"] = ("the implementation at hand does not have the private names / the display format this harness was written for: "
+                                    + ("synchronous wake-ups are replaced by replays with the real update thread; " if not sync else "")
+                                    + "".join(f"the final-counts oracle is not applied to the {k} observer; " for k, v in fmt.items() if not v))
     args = []
     for s in seqs:
-        if len(s) <= 2:
+        if len(s) <= 2 or not sync:
             continue
         names = list(fams) if tier != "quick" else rng.sample(list(fams), 4)
         for fn in names:
-            args.append((s, fn, fams[fn]))
+            args.append((s, fn, fams[fn], fmt))
     outs = common.pmap(replay_one, args)
     nfail = 0
-    for (s, fn, _sc), fails in zip(args, outs):
+    for (s, fn, _sc, _fm), fails in zip(args, outs):
         for f in fails:
             nfail += 1
             kind = f["what"]
@@ -360,21 +497,66 @@ def run(tier, seed):
             res.add_violation(f"C20:{f['obs']}:{kind}:{cause}", f"{f['obs']} observer, scope family {fn}: {kind}: {f['detail']}",
                               {"family": fn, "sequence": s, "failure": f})
     res.merge_counts(evaluations=len(args) * 3, traces_validated_against_impl=len(args) * 3,
-                     distinct_nontrivial=len({(json.dumps(s), fn) for s, fn, _ in args if len(s) > 8}))
+                     distinct_nontrivial=len({(json.dumps(s), fn) for s, fn, _, _f in args if len(s) > 8}))
     # the real update thread under the deterministic scheduler
     targs = []
-    fam = fams["strs"]
     long_seqs = [s for s in seqs if len(s) > 6]
-    for i in range(250 if tier == "quick" else 6000):
+    nthreaded = (600 if tier == "quick" else 8000) * (1 if sync else 4)
+    famnames = sorted(fams)
+    for i in range(nthreaded):
         sq = rng.choice(long_seqs)
         strat = rng.choice([{"kind": "random", "p": 0.2}, {"kind": "relyield", "q": 0.4}, {"kind": "pct", "depth": 3, "est_steps": 400}])
-        targs.append((sq, fam, seed * 1000 + i, strat))
+        kind = "html" if i % 2 == 0 else ("console" if i % 4 == 1 else "ipython")
+        fname = "strs" if (sync and i % 2 == 0) else rng.choice(famnames)
+        targs.append((sq, fams[fname], seed * 1000 + i, strat, kind, fmt.get(kind, False), fname))
     touts = common.pmap(replay_threaded, targs)
-    for (sq, _f, sd, strat), o in zip(targs, touts):
+    for (sq, _f, sd, strat, kind, _fm, fname), o in zip(targs, touts):
         for f in o["fails"]:
-            res.add_violation(f"C20:threaded:{f['what']}", f"HTML observer with its real update thread: {f['what']}: {f['detail']}",
-                              {"family": "strs", "sequence": sq, "seed": sd, "strategy": strat, "failure": f, "threaded": True})
-    res.merge_counts(evaluations=len(targs), traces_validated_against_impl=len(targs))
+            cause = "unorderable_scope_values" if "not supported between" in str(f["detail"]) else "other"
+            res.add_violation(f"C20:threaded:{kind}:{f['what']}:{cause}", f"{kind} observer with its real update thread, scope family {fname}: {f['what']}: {f['detail']}",
+                              {"family": fname, "sequence": sq, "seed": sd, "strategy": strat, "failure": f, "threaded": True, "observer": kind})
+    # ... and systematically: every single forced switch from the rendering thread to the caller, on a few sequences
+    eargs = []
+    def late_total(sq):
+        # after time has passed, a new scope is announced in a section that already shows several scopes (or a section
+        # is announced for the first time): the display may be in the middle of rendering that section at that moment
+        seen, scopes = False, {}
+        for e in sq:
+            if e["e"] in ("tick", "render"):
+                seen = True
+            elif e["e"] == "total":
+                have = scopes.setdefault(e["sec"], set())
+                if seen and e["sc"] not in have and len(have) >= 2:
+                    return True
+                have.add(e["sc"])
+        return False
+
+    both = [s for s in long_seqs if late_total(s)] or long_seqs
+    def with_pauses(sq):
+        # time may pass anywhere (Tick is always enabled in Progress.tla): a pause before every announcement, so that
+        # the display is being refreshed when the next scope appears
+        out = []
+        for e in sq:
+            if e["e"] == "total" and out and out[-1]["e"] != "enter":
+                out.append({"e": "tick", "sec": "", "sc": 0, "amt": 0})
+            out.append(e)
+        return out
+
+    for i in range(16 if tier == "quick" else 96):
+        sq = with_pauses(rng.choice(both))
+        kind = ("html", "html", "console", "ipython")[i % 4]
+        eargs.append((sq, fams["strs"], seed * 1000 + 2 * i + 1, kind, fmt.get(kind, False), 120 if tier == "quick" else 1000))
+    eouts = common.pmap(replay_threaded_enum, eargs)
+    nenum = 0
+    for (sq, _sc, sd, kind, _fm, _lim), eo in zip(eargs, eouts):
+        for spec, o in eo["runs"]:
+            nenum += 1
+            for f in o["fails"]:
+                cause = "unorderable_scope_values" if "not supported between" in str(f["detail"]) else "other"
+                res.add_violation(f"C20:threaded:{kind}:{f['what']}:{cause}", f"{kind} observer with its real update thread (one forced switch): {f['what']}: {f['detail']}",
+                                  {"family": "strs", "sequence": sq, "seed": sd | 1, "strategy": spec, "failure": f, "threaded": True, "observer": kind})
+    res.coverage["threaded_enumerated_executions"] = nenum
+    res.merge_counts(evaluations=len(targs) + nenum, traces_validated_against_impl=len(targs) + nenum)
     res.coverage["threaded_executions"] = len(targs)
     res.coverage["threaded_with_preemption"] = sum(1 for o in touts if o["preemptions"] > 0)
     res.coverage["threaded_renderings"] = sum(o["renderings"] for o in touts)
@@ -391,14 +573,15 @@ def replay(w):
     wit = w["witness"]
     fams = scope_families()
     if wit.get("threaded"):
-        fails = replay_threaded((wit["sequence"], fams[wit["family"]], wit["seed"], wit["strategy"]))["fails"]
+        kind = wit.get("observer", "html")
+        fails = replay_threaded((wit["sequence"], fams[wit["family"]], wit["seed"], wit["strategy"], kind, calibrate(sync_available()).get(kind, False)))["fails"]
         print(fails[:5])
         if fails:
             print(f"VIOLATION property={PROP} replay=(reproduced)")
             return 1
         print("not reproduced")
         return 0
-    fails = replay_one((wit["sequence"], wit["family"], fams[wit["family"]]))
+    fails = replay_one((wit["sequence"], wit["family"], fams[wit["family"]], calibrate(True)))
     print(fails[:5])
     if fails:
         print(f"VIOLATION property={PROP} replay=(reproduced)")
